@@ -35,6 +35,18 @@ func UnixTimestamp() int64    { return time.Now().UnixNano() / 1e9 }
 GOEOF
   rm -f $TP/common/pkg/fasttime/*_test.go
 fi
+# NowNano names things (memdb field buffers) by the nanosecond clock; the fake clock does not move
+# between two statements, so the simulation copy adds a per-run tick (reset by core.Execute)
+if ! grep -q VerifNanoTick $TP/common/pkg/timeutil/time.go; then
+  python3 - <<PYEOF || { echo "build: patch NowNano failed" >&2; exit 2; }
+p="$TP/common/pkg/timeutil/time.go"
+s=open(p).read()
+old="func NowNano() int64 {\n\treturn time.Now().UnixNano()\n}"
+assert old in s
+s=s.replace(old,"// VerifNanoTick makes NowNano strictly increasing under the fake clock.\nvar VerifNanoTick int64\n\nfunc NowNano() int64 {\n\tVerifNanoTick++\n\treturn time.Now().UnixNano() + VerifNanoTick\n}")
+open(p,"w").write(s)
+PYEOF
+fi
 YIELD=github.com/lindb/lindb/kv,github.com/lindb/lindb/pkg/queue,github.com/lindb/lindb/replica,github.com/lindb/lindb/index,github.com/lindb/lindb/tsdb,github.com/lindb/lindb/query,github.com/lindb/lindb/coordinator/master,github.com/lindb/lindb/coordinator/discovery,github.com/lindb/lindb/internal/concurrent,github.com/lindb/lindb/app/storage/rpc
 CONSTS=github.com/lindb/lindb/pkg/queue.dataPageSize=512,github.com/lindb/lindb/pkg/queue.indexItemsPerPage=8,github.com/lindb/lindb/pkg/bufioutil.defaultWriteBufferSize=4096
 $B/bin/rewrite -dir $REPO -out $B/overlay -const $CONSTS -yield $YIELD \
